@@ -584,6 +584,18 @@ pub fn supervise<P: Prop>(
                 continue;
             }
         }
+        // CPU budget per case (non-termination verdict): the biggest legitimate cases of the `large`
+        // lanes cost a few CPU seconds in the checked profile (the repo is quadratic in places), so
+        // they get six times the default; slower builds (ASan, coverage) multiply every budget
+        if lane.name == "large" && lane.cpu_hang_s == Some(20) {
+            lane.cpu_hang_s = Some(120);
+        }
+        if let (Some(b), Some(f)) = (
+            lane.cpu_hang_s,
+            std::env::var("TUVERIF_HANG_FACTOR").ok().and_then(|s| s.parse::<u64>().ok()),
+        ) {
+            lane.cpu_hang_s = Some(b * f.max(1));
+        }
         if scale != 1.0 {
             lane.cases = ((lane.cases as f64 * scale) as u64).max(lane.shards as u64);
             lane.floor = ((lane.floor as f64 * scale * 0.5) as u64).max(2);
